@@ -57,5 +57,6 @@ def check_pow(hash: Bytes, nBits: Int):
     requires(len(hash) == 32)
     requires(0 <= nBits and nBits < 2**32)
     split(cexp(nBits), 0, 256)
-    option(chains=True, shards=8)
-    raises(CheckProofOfWorkError, when=not pow_accepts(le_int(hash), nBits, pow_limit(CHAIN)))
+    option(chains=True, shards=8, callable=True)
+    unfold(pow_rule(le_int(hash), nBits, pow_limit(CHAIN)))
+    raises(CheckProofOfWorkError, when=not pow_rule(le_int(hash), nBits, pow_limit(CHAIN)))
